@@ -37,6 +37,14 @@ def FLOORS(tier):
                 f["app:%s:%s" % (o, t)] = 30 if q else 1000
     return f
 
+_FLOORS_BEFORE_ROUND9 = FLOORS
+
+
+def FLOORS(tier):      # noqa: F811 -- floors of the input classes added in round 9 (a quarter of what seed 0 observes in the quick tier)
+    f = _FLOORS_BEFORE_ROUND9(tier)
+    f.update({'second-look:after-removal-only-edit': 996})
+    return f
+
 
 def snapshot(m):
     if isinstance(m, dict):
